@@ -1305,5 +1305,70 @@ mod verif_inflate_core {
         kani::cover!(inl < 2 && l.num_bits < 15, "COV:slowdecode.byte_at_a_time_path");
     }
 
+    // ------------------------------------------------------------------
+    // K-stored-e2e : a bounded END-TO-END run of the real decompress() (whole automaton: prologue, Start,
+    // [zlib header], block header, stored block arms, BlockDone, [trailer], epilogue) on a final stored block of
+    // 0..=2 symbolic bytes followed by 0..=2 arbitrary trailing bytes, flat or ring output, any padding bits.
+    // The first byte is concrete per variant (a symbolic block type would make CBMC build Huffman tables).
+    // This is the one place where the COMPOSITION of arms is exercised for all inputs of a (small) family.
+    // ------------------------------------------------------------------
+    fn stored_e2e_body(first_byte: u8, zlib: bool, n: usize, trailing: usize, flat: bool, more: bool) {
+        // block structure concrete (a symbolic length or flag makes the automaton's state symbolic and CBMC then
+        // expands all 25 arms per step: > 12 GB); the data bytes, trailer and trailing bytes are symbolic
+        let mut r = DecompressorOxide::default();
+        let mut inb = [0u8; 15];
+        let mut p = 0;
+        if zlib { inb[0] = 0x78; inb[1] = 0x9C; p = 2; }
+        inb[p] = first_byte;                       // BFINAL=1, BTYPE=00, 5 padding bits
+        inb[p + 1] = n as u8; inb[p + 2] = 0; inb[p + 3] = !(n as u8); inb[p + 4] = 0xFF;
+        let data: [u8; 2] = kani::any();
+        inb[p + 5] = data[0]; inb[p + 6] = data[1];
+        let body_end = p + 5 + n;
+        let trailer: [u8; 4] = kani::any();
+        let mut q = body_end;
+        if zlib { inb[q] = trailer[0]; inb[q + 1] = trailer[1]; inb[q + 2] = trailer[2]; inb[q + 3] = trailer[3]; q += 4; }
+        let stream_len = q;
+        let junk: [u8; 2] = kani::any();
+        inb[q] = junk[0]; inb[q + 1] = junk[1];
+        let total = stream_len + trailing;
+        let mut flags = if flat { TINFL_FLAG_USING_NON_WRAPPING_OUTPUT_BUF } else { 0 };
+        if zlib { flags |= TINFL_FLAG_PARSE_ZLIB_HEADER; }
+        if more { flags |= TINFL_FLAG_HAS_MORE_INPUT; }
+        let mut out = [0xAAu8; 8];
+        let (st, c, w) = decompress(&mut r, &inb[..total], &mut out[..], 0, flags);
+        if zlib {
+            // 8 bytes cannot hold the 32 KiB window the header declares: a ring decoder must refuse, a flat one accepts
+            if !flat { assert!(st == TINFLStatus::Failed, "OBL:e2e.zlib_header_window_larger_than_ring_is_rejected [C04 C09]"); return; }
+            let want = model_adler(1, &data[..n]);
+            let got = (trailer[0] as u32) << 24 | (trailer[1] as u32) << 16 | (trailer[2] as u32) << 8 | trailer[3] as u32;
+            assert!(st == if got == want { TINFLStatus::Done } else { TINFLStatus::Adler32Mismatch }, "OBL:e2e.completion_only_if_trailer_equals_checksum_of_output [C09 C04]");
+        } else {
+            assert!(st == TINFLStatus::Done, "OBL:e2e.valid_stored_stream_decodes_to_done [C03]");
+        }
+        assert!(c == stream_len, "OBL:e2e.consumed_is_exactly_the_encoded_length_whatever_follows [C06]");
+        assert!(w == n && (n < 1 || out[0] == data[0]) && (n < 2 || out[1] == data[1]), "OBL:e2e.output_is_exactly_the_stored_bytes [C03 C01]");
+        let k: usize = kani::any();
+        kani::assume(k < 8 && k >= n);
+        assert!(out[k] == 0xAA, "OBL:e2e.nothing_written_beyond_the_reported_count [C08]");
+        assert!(r.state == DoneForever, "OBL:e2e.decoder_ends_in_done_state [C13]");
+    }
+    #[kani::proof]
+    #[kani::unwind(40)]
+    fn k_stored_block_end_to_end_raw() {
+        stored_e2e_body(0x01, false, 0, 0, true, false);
+        stored_e2e_body(0x01, false, 1, 2, true, true);
+        stored_e2e_body(0xF9, false, 2, 2, false, false);
+        stored_e2e_body(0xF9, false, 2, 1, true, true);
+    }
+    #[kani::proof]
+    #[kani::unwind(40)]
+    #[kani::stub(update_adler32, model_adler)]
+    fn k_stored_block_end_to_end_zlib() {
+        stored_e2e_body(0x01, true, 2, 2, true, false);
+        stored_e2e_body(0xF9, true, 1, 0, true, true);
+        stored_e2e_body(0x01, true, 0, 1, true, false);
+        stored_e2e_body(0x01, true, 1, 1, false, false);
+    }
+
     //@PLAYBACK@
 }
